@@ -955,6 +955,10 @@ func (e *Engine) lookup(in *ssa.Lookup, x, idx Value) Value {
 			var cands []interface{}
 			var conds []Term
 			none := Bool(true)
+			restrict, _ := e.pathData["mapcands"].(map[string]bool)
+			if len(x.m) <= 16 {
+				restrict = nil
+			}
 			for _, kk := range x.ord {
 				if _, live := x.m[kk]; !live {
 					continue
@@ -963,9 +967,13 @@ func (e *Engine) lookup(in *ssa.Lookup, x, idx Value) Value {
 				if c.False() {
 					continue
 				}
+				none = And(none, Not(c))
+				if restrict != nil && !restrict[fmt.Sprint(kk)] {
+					e.sampled++ // key outside the stated candidate set: not explored
+					continue
+				}
 				cands = append(cands, kk)
 				conds = append(conds, c)
-				none = And(none, Not(c))
 			}
 			i := e.choose(len(cands)+1, func(i int) Term {
 				if i == 0 {
